@@ -147,6 +147,7 @@ func (e *Engine) chooseFree(st *State, n int, what string) int {
 	}
 	for k := n - 1; k >= 1; k-- {
 		child := st.fork()
+		child.Steps-- // the child executes the current instruction again
 		child.replay = append(append([]dec(nil), st.decided...), dec{k, 0})
 		child.decided = nil
 		e.work = append(e.work, child)
@@ -196,7 +197,14 @@ func (e *Engine) schedPoint(st *State, th *Thread) bool {
 		return false
 	}
 	if st.NoSched {
+		// Consumed by the first visible operation after a switch. A fork taken later in the same
+		// instruction (several ready select cases, a timer) executes this call again: it must
+		// come out the same way, so the step at which the flag was consumed is remembered.
 		st.NoSched = false
+		st.noSchedStep = st.Steps
+		return false
+	}
+	if st.noSchedStep == st.Steps {
 		return false
 	}
 	if st.Preempts >= e.Opt.Preempt {
